@@ -1222,33 +1222,39 @@ archive_write_pax_header(struct archive_write *a,
 
 		/* I use star-compatible ACL attributes. */
 		if ((acl_types & ARCHIVE_ENTRY_ACL_TYPE_NFS4) != 0) {
-			ret = add_pax_acl(a, entry_original, pax,
+			r = add_pax_acl(a, entry_original, pax,
 			    ARCHIVE_ENTRY_ACL_STYLE_EXTRA_ID |
 			    ARCHIVE_ENTRY_ACL_STYLE_SEPARATOR_COMMA |
 			    ARCHIVE_ENTRY_ACL_STYLE_COMPACT);
-			if (ret == ARCHIVE_FATAL) {
+			if (r < ret)
+				ret = r;
+			if (r == ARCHIVE_FATAL) {
 				archive_entry_free(entry_main);
 				archive_string_free(&entry_name);
 				return (ARCHIVE_FATAL);
 			}
 		}
 		if (acl_types & ARCHIVE_ENTRY_ACL_TYPE_ACCESS) {
-			ret = add_pax_acl(a, entry_original, pax,
+			r = add_pax_acl(a, entry_original, pax,
 			    ARCHIVE_ENTRY_ACL_TYPE_ACCESS |
 			    ARCHIVE_ENTRY_ACL_STYLE_EXTRA_ID |
 			    ARCHIVE_ENTRY_ACL_STYLE_SEPARATOR_COMMA);
-			if (ret == ARCHIVE_FATAL) {
+			if (r < ret)
+				ret = r;
+			if (r == ARCHIVE_FATAL) {
 				archive_entry_free(entry_main);
 				archive_string_free(&entry_name);
 				return (ARCHIVE_FATAL);
 			}
 		}
 		if (acl_types & ARCHIVE_ENTRY_ACL_TYPE_DEFAULT) {
-			ret = add_pax_acl(a, entry_original, pax,
+			r = add_pax_acl(a, entry_original, pax,
 			    ARCHIVE_ENTRY_ACL_TYPE_DEFAULT |
 			    ARCHIVE_ENTRY_ACL_STYLE_EXTRA_ID |
 			    ARCHIVE_ENTRY_ACL_STYLE_SEPARATOR_COMMA);
-			if (ret == ARCHIVE_FATAL) {
+			if (r < ret)
+				ret = r;
+			if (r == ARCHIVE_FATAL) {
 				archive_entry_free(entry_main);
 				archive_string_free(&entry_name);
 				return (ARCHIVE_FATAL);
